@@ -245,7 +245,7 @@ func C05Hier() {
 		if i < n {
 			u := zz.NondetByte("unit")
 			// declared names plus one undeclared unit name
-			zz.Assume(u == 'a' || u == 'b' || u == 'c' || u == 'd' || u == 'z')
+			zz.Assume(zz.ByteIn(u, "abcdz"))
 			units = append(units, u)
 		}
 	}
